@@ -17,6 +17,10 @@ AT = [("supports", "(a: b)"), ("foo", "bar"), ("foo", None), ("font-face", None)
 MEDIA = ["print", "screen", "all"]
 
 
+RICH = [" x *", "*", "*** x ***", " a/x ", "/ x", " #42: x ", " x! ", "  x  ", "\tx\t", " x *\n * b *", " ! x", "**", "* x",
+        " x #", " * /x", "! x *", "!*", "!", " x\n\n * y /"]
+
+
 class G:
     def __init__(self, rng, depth=4, p_error=0.03, comments=0.15, silent=False):
         self.rng = rng
@@ -48,6 +52,25 @@ class G:
     def comment(self):
         m = self.mark()
         k = self.rng.random()
+        if k < 0.30:
+            # texts over a richer alphabet: leading / trailing `#`, `*`, `/`, `!`, white space,
+            # interpolation at the very start / end, a `#...` value right after the blank
+            tag = f"c{m:03d}"
+            j = self.rng.randrange(len(RICH) + 6)
+            if j < len(RICH):
+                return ["c", RICH[j].replace("x", tag)]
+            j -= len(RICH)
+            if j == 0:
+                return ["c", f"a{m:03d} mid {tag}", f"#{{a{m:03d}}} mid #{{{tag}}}"]
+            if j == 1:
+                return ["c", f" #33{m:03d}9 is {tag} ", f' #{{"#33{m:03d}9"}} is {tag} ']
+            if j == 2:
+                return ["c", f"! {tag} *", f"! #{{{tag}}} *"]
+            if j == 3:
+                return ["c", f"  #{tag}: follow-up "]
+            if j == 4:
+                return ["c", f"\t#t{m:03d} {tag}\t", f"\t#{{'#t{m:03d}'}} {tag}\t"]
+            return ["c", f" {tag} */".replace("*/", "* /") + "*"]
         if self.silent and k < 0.14:
             return ["c", f"! keep{m:03d} "]
         if self.silent and k < 0.28:
@@ -78,6 +101,8 @@ class G:
         rng = self.rng
         k = rng.random()
         if k < self.p_error:
+            if rng.random() < 0.35:
+                return ["ce", f"{self.mark():03d}"]       # a loud comment whose interpolation calls a function that @errors
             return ["e", f"boom{self.mark():03d}"]
         k = rng.random()
         if k < self.p_comment:
@@ -94,6 +119,9 @@ class G:
             else:
                 then = self.body(d - 1, in_rule, has_parent, in_mixin, in_content, 0, 2)
             return ["ifv", L, kk, then, self.body(d - 1, in_rule, has_parent, in_mixin, in_content, 0, 2)]
+        if self.loops and rng.random() < 0.06:
+            L, n = rng.choice(self.loops)
+            return ["cdfn", L, rng.randrange(n), f"{self.mark():03d}"]
         if self.loops and in_rule and rng.random() < 0.08:
             L, n = rng.choice(self.loops)
             m = self.mark()
@@ -230,6 +258,10 @@ def stmt_scss(s, ind=0):
                 f"{body_scss(s[4], ind + 1)}{p}}}\n")
     if t == "dfn":
         return f"{p}{s[3]}: chk($v{s[1]}, {item_text(s[1], s[2])}, {s[4]});\n"
+    if t == "cdfn":
+        return f"{p}/* c{s[3]} #{{chk($v{s[1]}, {item_text(s[1], s[2])}, m{s[3]})}} */\n"
+    if t == "ce":
+        return f"{p}/* c{s[1]} #{{boom(m{s[1]})}} */\n"
     if t == "inc":
         if s[2] is None:
             return f"{p}@include m{s[1]};\n"
@@ -268,12 +300,19 @@ def uses(l, tag):
 CHK = '@function chk($x, $bad, $m) {\n  @if $x == $bad {\n    @error "boom#{$m}";\n  }\n  @return $m;\n}\n'
 
 
+BOOM = '@function boom($m) {\n  @error "boom#{$m}";\n  @return $m;\n}\n'
+
+
 def program_scss(pr):
     LOOP_KIND.clear()
     collect_kinds(pr["main"])
     for b in pr["mixins"]:
         collect_kinds(b)
-    out = CHK if (uses(pr["main"], "dfn") or any(uses(b, "dfn") for b in pr["mixins"])) else ""
+    def used(tag):
+        return uses(pr["main"], tag) or any(uses(b, tag) for b in pr["mixins"])
+    out = CHK if (used("dfn") or used("cdfn")) else ""
+    if used("ce"):
+        out += BOOM
     for i, b in enumerate(pr["mixins"]):
         out += f"@mixin m{i} {{\n{body_scss(b, 1)}}}\n"
     return out + body_scss(pr["main"], 0)
@@ -337,6 +376,12 @@ def stmt_coq(s):
         if ENV.get(s[1]) == s[2]:
             return f"(SError {cbytes('boom' + s[4])})"
         return f"(SDecl {cbytes(s[3])} {cbytes(s[4])})"
+    if t == "cdfn":
+        if ENV.get(s[1]) == s[2]:
+            return f"(SError {cbytes('boomm' + s[3])})"
+        return f"(SComment {cbytes(' c' + s[3] + ' m' + s[3] + ' ')})"
+    if t == "ce":
+        return f"(SError {cbytes('boomm' + s[1])})"
     if t == "inc":
         return f"(SInclude {s[1]} {opt(s[2], body_coq)})"
     if t == "content":
